@@ -12,6 +12,8 @@ PREFIX_METHODS = tuple(m for m in PREFIX_OF.values() if m)
 
 
 def norm(s):
+    import re
+    s = re.sub(r"\{closure#\d+\}", "{closure}", s)
     return desat(s.replace(").0", ")").replace("arg1.", "").replace("_1.", ""))
 
 
